@@ -823,8 +823,112 @@ def provider_hook_and_failed_open_stream(ctx, res):
         if used1 != key1[:7] or (then == "other-valid" and used2 != key2[:7]) or (then == "malformed" and used2 is not None):
             res.violate("C07:other-key-used", "after a refused open, later sessions do not follow the key file (a cached key is used / a malformed file accepted)", case)
 
+def named_paths_copies_and_empty_names_stream(ctx, res):
+    """(a) a key file named THROUGH a symbolic link and `..` (`<base>/current/../app.key` where `current` links to `releases/v1`):
+    the file the operating system reaches under that name — `<base>/releases/app.key` — is the key file: used verbatim, and no
+    other file is created; (b) a deep copy of a configuration that names its own key file keeps naming it: what the copy saves
+    opens with that key file, the default key file is not created; (c) an EMPTY key file name assigned to a section means "inherit"
+    (like None): the section's secrets are sealed with the nearest ancestor's key file"""
+    import base64
+    import copy
+    import cincoconfig as cc
+    from cincoconfig.encryption import KeyFile, SecureValue
+    tmp = os.path.realpath(ctx.tmpdir())
+    base = os.path.join(tmp, "named-paths")
+    os.makedirs(os.path.join(base, "releases", "v1"), exist_ok=True)
+    link = os.path.join(base, "current")
+    if not os.path.islink(link):
+        os.symlink(os.path.join(base, "releases", "v1"), link)
+    real = os.path.join(base, "releases", "app.key")
+    key = bytes(range(100, 132))
+    with open(real, "wb") as fp:
+        fp.write(key)
+    named = os.path.join(base, "current", "..", "app.key")
+    shortcut = os.path.join(base, "app.key")
+    default = cc.Config.DEFAULT_CINCOKEY_FILEPATH
+
+    def opens(keybytes, stored):
+        from cincoconfig.encryption import XorProvider, AesProvider
+        try:
+            prov = (AesProvider if stored["method"] == "aes" else XorProvider)(keybytes)
+            return prov.decrypt(base64.b64decode(stored["ciphertext"])).decode("utf-8", "replace")
+        except Exception as e:  # noqa
+            return "raised %s" % type(e).__name__
+    s = cc.Schema()
+    s.db.password = cc.SecureField(method="aes")
+    s.db.pin = cc.SecureField(method="xor")
+    # (a)
+    for how in ("constructor", "KeyFile"):
+        if os.path.exists(shortcut):
+            os.remove(shortcut)
+        case = {"stream": "named-through-link", "how": how}
+        res.case(stable(case), kind="named-through-link")
+        try:
+            if how == "constructor":
+                cfg = s(key_filename=named)
+                cfg.db.password = "pw-through-link"
+                cfg.db.pin = "1234"
+                t = cfg.to_tree()
+                got = (opens(key, t["db"]["password"]), opens(key, t["db"]["pin"]))
+            else:
+                with KeyFile(named) as kf:
+                    sv = kf.encrypt(b"pw-through-link", "aes")
+                got = (opens(key, {"method": "aes", "ciphertext": base64.b64encode(sv.ciphertext).decode()}), "1234")
+        except Exception as e:  # noqa
+            got = "raised %s: %s" % (type(e).__name__, str(e)[:60])
+        if got != ("pw-through-link", "1234") or os.path.exists(shortcut) or open(real, "rb").read() != key:
+            res.violate("C07:not-verbatim:named-path", "a key file named through a symbolic link and `..` was not the file the operating system reaches under that name "
+                        "(another file was used or created)", dict(case, opened_with_the_named_file=repr(got), other_file_created=os.path.exists(shortcut)))
+    # (b)
+    own = os.path.join(base, "own.key")
+    own_key = bytes(range(50, 82))
+    with open(own, "wb") as fp:
+        fp.write(own_key)
+    for inside_context in (False, True):
+        cfg = s(key_filename=own)
+        cfg.db.password = "first"
+        default_before = open(default, "rb").read() if os.path.exists(default) else None
+        case = {"stream": "deep-copy-keeps-key-file", "copied_inside_an_open_context": inside_context}
+        res.case(stable(case), kind="deep-copy-keeps-key-file")
+        try:
+            if inside_context:
+                with cfg._keyfile:
+                    dup = copy.deepcopy(cfg)
+            else:
+                dup = copy.deepcopy(cfg)
+            dup.db.password = "set-on-the-copy"
+            dup.db.pin = "99"
+            t = dup.to_tree()
+            got = (dup._key_filename, opens(own_key, t["db"]["password"]), opens(own_key, t["db"]["pin"]))
+        except Exception as e:  # noqa
+            got = "raised %s: %s" % (type(e).__name__, str(e)[:60])
+        default_after = open(default, "rb").read() if os.path.exists(default) else None
+        if got != (own, "set-on-the-copy", "99") or default_after != default_before:
+            res.violate("C07:not-verbatim:deep-copy", "a deep copy of a configuration that names its own key file does not keep using that key file verbatim",
+                        dict(case, got=repr(got), default_key_file_touched=default_after != default_before))
+    # (c)
+    t_ = cc.Schema()
+    t_.section.secret = cc.SecureField(method="aes")
+    t_.section.deeper.secret = cc.SecureField(method="xor")
+    for empty in ("", None):
+        cfg = t_(key_filename=own)
+        case = {"stream": "empty-key-file-name", "assigned": repr(empty)}
+        res.case(stable(case), kind="empty-key-file-name")
+        try:
+            cfg.section._key_filename = os.path.join(base, "section.key")
+            cfg.section._key_filename = empty
+            cfg.section.secret = "inherits"
+            cfg.section.deeper.secret = "inherits-too"
+            t = cfg.to_tree()
+            got = (cfg.section._key_filename, opens(own_key, t["section"]["secret"]), opens(own_key, t["section"]["deeper"]["secret"]))
+        except Exception as e:  # noqa
+            got = "raised %s: %s" % (type(e).__name__, str(e)[:60])
+        if got != (own, "inherits", "inherits-too"):
+            res.violate("C07:not-verbatim:empty-name", "an empty key file name assigned to a section did not mean 'inherit the ancestor's key file'", dict(case, got=repr(got)))
+
 def run(ctx, n_quick=400, n_thorough=20000):
     res = Result()
+    guard(res, "C07", named_paths_copies_and_empty_names_stream, ctx, res)
     guard(res, "C07", middle_key_file_stream, ctx, res)
     guard(res, "C07", provider_hook_and_failed_open_stream, ctx, res)
     guard(res, "C07", linked_key_file_stream, ctx, res)
